@@ -144,6 +144,14 @@ def run(ctx):
                           "free": {"nevents": nev, "broker_us": 0, "close_at_us": 0, "seed": rng.randint(1, 1 << 30), "stall": True, "pad_kb": pad}})
         nfree += 1
 
+    # ... and a backlog whose flush at shutdown takes longer than any plausible patience of Close(): the broker is stalled while
+    # 6600 events pile up, then takes 100 ms per batch of 100; Close() is called at once and returns when everything is written
+    for (np_, nev, us) in ([(3, 2200, 100000)] if quick else [(3, 2200, 100000), (2, 6000, 100000)]):
+        sid += 1
+        scenarios.append({"id": sid, "cfg": {"producers": ["p1", "p2", "p3"][:np_], "chancap": 10000}, "steps": [], "origin": "flood-slowflush",
+                          "free": {"nevents": nev, "broker_us": us, "close_at_us": 0, "seed": rng.randint(1, 1 << 30), "stall": True}})
+        nfree += 1
+
     # 3. replay on the real code
     binp = ctx.build("eventwriter")
     scn_file = ctx.path("scenarios.ndjson")
